@@ -13,8 +13,8 @@ import (
 // against the root type.
 func init() {
 	register(&Rule{
-		Name: "WALKADVANCE",
-		Doc: "in every loop that ranges over path steps (`[]Path`), a *TypeDescriptor variable declared outside the loop whose methods the loop body calls (Type/Struct/Elem/Key/Message…) is assigned inside the loop body — otherwise the second and later steps are resolved against the descriptor of the first",
+		Name:     "WALKADVANCE",
+		Doc:      "in every loop that ranges over path steps (`[]Path`), a *TypeDescriptor variable declared outside the loop whose methods the loop body calls (Type/Struct/Elem/Key/Message…) is assigned inside the loop body — otherwise the second and later steps are resolved against the descriptor of the first",
 		Configs:  "NP",
 		Floor:    map[string]int{"N": 3, "P": 3},
 		Controls: 1,
